@@ -9,6 +9,15 @@ Structural clauses decided (cardillo/math/rotations.py, algebra.py), by scaling-
  R3 bilinearity          quatprod(P, Q) has degree dP + dQ in every component (necessary for the composition homomorphism to be
                          compatible with the scale invariance); the helpers ax2skew, ax2skew_squared, cross3, skew2ax have the
                          degrees d, 2d, d1 + d2, d
+ R5 orientation convention
+                         (K12 signed expansion; coefficients abstracted to signs) the four kernels that fix the handedness of the
+                         parametrisation agree: with h(f) = sign of the skew/cross term relative to the p0 term,
+                             h(quatprod) = h(T_SO3_inv_quat) = -h(T_SO3_quat) = h(Exp_SO3_quat)
+                         and the scalar-like parts carry the opposite sign (z0 = p0 q0 - p.q, first row/column -p).  Why necessary:
+                         T T_inv = I needs the term linear in skew(p) to cancel (equal h in the formulas = opposite written
+                         signs); P_dot = T_inv w is half the product P o (0, w), so T_inv repeats quatprod's vector part; the
+                         spin identity R_dot = R skew(w) at second order in p ties that sign to the sign of p0 skew(p) in the
+                         rotation matrix; the same second-order expansion of R(P o Q) = R(P) R(Q) ties quatprod's cross term to it.
  R4 normalisation used   on the normalising path the division is by P @ P (degree 2), the only normaliser under which the
                          degree-2 Rodrigues numerator becomes scale free
 """
@@ -36,6 +45,7 @@ def run(ctx):
     rep.rule("C01.R2", "degree relations of tangent maps and stated derivatives", 5)
     rep.rule("C01.R3", "bilinearity of quatprod and degrees of the algebra helpers", 8)
     rep.rule("C01.R4", "normaliser is P @ P", 3)
+    rep.rule("C01.R5", "orientation convention shared by quatprod, T_SO3_quat, T_SO3_inv_quat and Exp_SO3_quat (signed expansion)", 5)
     rot, alg = ctx.repo.module(ROT), ctx.repo.module(ALG)
     fns = {}
     for mod in (alg, rot):
@@ -82,6 +92,7 @@ def run(ctx):
     check("C01.R3", "skew2ax", {"A": F(1)}, {}, F(1), "skew2ax is linear")
     for (a, b) in ((1, 0), (1, 1)):
         check("C01.R3", "cross3", {"a": F(a), "b": F(b)}, {}, F(a + b), f"cross product is bilinear (da={a}, db={b})")
+    orientation(ctx, fns)
     # R4 normaliser
     for name in ("Exp_SO3_quat", "T_SO3_quat", "Exp_SO3_quat_P", "T_SO3_quat_P"):
         fn = fns[name]
@@ -95,6 +106,95 @@ def run(ctx):
             rep.ok("C01.R4", C, f"normalising branch divides by P @ P: {norm_src(ifs[0].body[0])}")
         else:
             rep.bad("C01.R4", C, ifs[0].body[0], "the normalising branch does not use P @ P", f"{ROT}:{ifs[0].lineno}")
+
+
+def _ret(fn):
+    r = [n.value for n in ast.walk(fn) if isinstance(n, ast.Return) and n.value is not None]
+    return r[-1] if r else None
+
+
+def orientation(ctx, fns):
+    from ..signedterms import Expander, find
+    rep = ctx.rep
+    hs = {}
+
+    def one(sign_list):
+        return sign_list[0] if len(sign_list) == 1 else None
+
+    # ---- quatprod: return np.array([z0, *z])
+    fn = fns["quatprod"]
+    ex = Expander(fn)
+    z0 = ex.expand(ast.Name("z0", ast.Load())) if "z0" in ex.local else None
+    z = ex.expand(ast.Name("z", ast.Load())) if "z" in ex.local else None
+    C = f"{ROT}:quatprod"
+    if z0 is None or z is None:
+        rep.note("C01.R5: quatprod: z0 / z not found in a readable form (no verdict)")
+    else:
+        s00, spq = one(find(z0, "p0", "q0")), one(find(z0, "p", "q"))
+        s1, s2 = one(find(z, "p0", "q")), one(find(z, "p", "q0"))
+        sc = one(find(z, "q", "skew(p)"))
+        sc_rev = one(find(z, "p", "skew(q)"))
+        cross = sc if sc is not None else (-sc_rev if sc_rev is not None else None)
+        if None in (s00, spq, s1, s2, cross):
+            rep.note(f"C01.R5: quatprod: terms not all identified (z0: {z0}, z: {z}) (no verdict)")
+        else:
+            if not (s1 == s2 == s00 and spq == -s00):
+                rep.bad("C01.R5", C, ex.local["z0"][0], f"quaternion product: p0 q0 ({s00:+d}), p.q ({spq:+d}), p0 q ({s1:+d}), q0 p ({s2:+d}) are not the signs of "
+                        "(p0 q0 - p.q, p0 q + q0 p + ...): the product is not norm-multiplicative, unit quaternions do not compose to rotations", f"{ROT}:{fn.lineno}")
+            else:
+                rep.ok("C01.R5", C, "scalar part p0 q0 - p.q, vector part p0 q + q0 p + h p x q")
+            hs["quatprod"] = (cross * s00, ex.local["z"][0])
+    # ---- T_SO3_inv_quat / T_SO3_quat: stacked [-p ; p0 I +- skew(p)]
+    for name in ("T_SO3_inv_quat", "T_SO3_quat"):
+        fn = fns[name]
+        ex = Expander(fn)
+        r = _ret(fn)
+        t = ex.expand(r) if r is not None else None
+        C = f"{ROT}:{name}"
+        if t is None:
+            rep.note(f"C01.R5: {name}: return value not expandable (no verdict)")
+            continue
+        sp, s0, ss = one(find(t, "p", block=0)), one(find(t, "p0", block=1)), one(find(t, "skew(p)", block=1))
+        if None in (sp, s0, ss):
+            rep.note(f"C01.R5: {name}: blocks not identified in {t} (no verdict)")
+            continue
+        if sp != -s0:
+            rep.bad("C01.R5", C, r, f"the vector block {sp:+d} p and the p0 block {s0:+d} p0 I must have opposite signs ([-p | p0 I -+ skew(p)])", f"{ROT}:{fn.lineno}")
+        else:
+            rep.ok("C01.R5", C, f"blocks [{sp:+d} p | {s0:+d} p0 I {ss:+d} skew(p)]")
+        hs[name] = (ss * s0, r)
+    # ---- Exp_SO3_quat: eye3 + 2 (p0 skew(p) + skew(p)^2) / (P.P)
+    fn = fns["Exp_SO3_quat"]
+    ex = Expander(fn)
+    r = _ret(fn)
+    t = ex.expand(r) if r is not None else None
+    C = f"{ROT}:Exp_SO3_quat"
+    if t is None:
+        rep.note("C01.R5: Exp_SO3_quat: return value not expandable (no verdict)")
+    else:
+        si, sl, sq = one(find(t)), one(find(t, "p0", "skew(p)")), one(find(t, "skew2(p)"))
+        if None in (si, sl, sq):
+            rep.note(f"C01.R5: Exp_SO3_quat: terms not identified in {t} (no verdict)")
+        else:
+            if si != sq:
+                rep.bad("C01.R5", C, r, f"identity ({si:+d}) and skew(p)^2 ({sq:+d}) must enter with the same sign (I + 2 skew(p)^2 is the symmetric part of a rotation)", f"{ROT}:{fn.lineno}")
+            else:
+                rep.ok("C01.R5", C, f"I {sq:+d} 2 skew(p)^2 {sl:+d} 2 p0 skew(p)")
+            hs["Exp_SO3_quat"] = (sl * si, r)
+    want = {"quatprod": 1, "T_SO3_inv_quat": 1, "T_SO3_quat": -1, "Exp_SO3_quat": 1}
+    got = {k: v[0] * want[k] for k, v in hs.items()}
+    if len(got) >= 2:
+        vals = sorted(set(got.values()))
+        if len(vals) == 1:
+            rep.ok("C01.R5", f"{ROT}:quaternion kernels", f"orientation bit {vals[0]:+d} shared by {sorted(got)} (T_SO3_quat with the opposite written sign)")
+        else:
+            # the odd one out (majority = the convention of the code base)
+            major = max(vals, key=lambda v: sum(1 for x in got.values() if x == v))
+            for k, v in sorted(got.items()):
+                if v != major:
+                    rep.bad("C01.R5", f"{ROT}:{k}", hs[k][1], f"`{k}` uses the opposite orientation convention from {sorted(x for x in got if got[x] == major)}: the sign of its "
+                            "skew / cross-product term is flipped, so one of: composition R(P o Q) = R(P) R(Q), T T_inv = I, or the body-fixed spin identity fails",
+                            f"{ROT}:{fns[k].lineno}")
 
 
 MUTANTS = [
@@ -119,7 +219,21 @@ MUTANTS += [
     dict(id="c01-seed", canary=True, what="[seeded by sub-agent] Exp_SO3_quat skips the normalisation when |P|^2 is close to one", file=ROT,
          old="    if normalize:\n        matrix /= P @ P\n    return eye3 + matrix", new="    if normalize:\n        P2 = P @ P\n        if not np.isclose(P2, 1.0):\n            matrix /= P2\n    return eye3 + matrix", expect="C01.R1"),
 ]
+MUTANTS += [
+    dict(id="c01-r5-seed", canary=True, what="[seeded by sub-agent] quatprod: vector part with the block p0 I - skew(p) (reversed product)", file=ROT,
+         old="    z = p0 * q + q0 * p + cross3(p, q)", new="    z = q0 * p + (p0 * eye3 - ax2skew(p)) @ q", expect="C01.R5"),
+    dict(id="c01-r5-2", what="T_SO3_inv_quat with the sign of the skew block flipped", file=ROT,
+         old="    return np.vstack((-p, p0 * eye3 + ax2skew(p))) / 2\n", new="    return np.vstack((-p, p0 * eye3 - ax2skew(p))) / 2\n", expect="C01.R5"),
+    dict(id="c01-r5-3", what="Exp_SO3_quat builds the transposed rotation", file=ROT,
+         old="    matrix = 2 * (p0 * ax2skew(p) + ax2skew_squared(p))\n    if normalize:\n        matrix /= P @ P\n    return eye3 + matrix",
+         new="    matrix = 2 * (ax2skew_squared(p) - p0 * ax2skew(p))\n    if normalize:\n        matrix /= P @ P\n    return eye3 + matrix", expect="C01.R5"),
+    dict(id="c01-r5-4", what="quatprod: scalar part p0 q0 + p.q", file=ROT, old="    z0 = p0 * q0 - p @ q", new="    z0 = p0 * q0 + p @ q", expect="C01.R5"),
+    dict(id="c01-r5-5", what="quatprod: cross3(q, p)", file=ROT, old="    z = p0 * q + q0 * p + cross3(p, q)", new="    z = p0 * q + q0 * p + cross3(q, p)", expect="C01.R5"),
+]
 NEUTRAL = [
+    dict(id="c01-n-r5", canary=True, what="quatprod: vector part with the block p0 I + skew(p)", file=ROT,
+         old="    z = p0 * q + q0 * p + cross3(p, q)", new="    z = q0 * p + (p0 * eye3 + ax2skew(p)) @ q"),
+    dict(id="c01-n-r5b", what="quatprod: - cross3(q, p)", file=ROT, old="    z = p0 * q + q0 * p + cross3(p, q)", new="    z = p0 * q + q0 * p - cross3(q, p)"),
     dict(id="c01-n1", canary=True, what="Exp_SO3_quat with the division written out", file=ROT,
          old="    matrix = 2 * (p0 * ax2skew(p) + ax2skew_squared(p))\n    if normalize:\n        matrix /= P @ P\n    return eye3 + matrix",
          new="    matrix = 2 * (p0 * ax2skew(p) + ax2skew_squared(p))\n    if normalize:\n        matrix = matrix / (P @ P)\n    return eye3 + matrix"),
